@@ -170,6 +170,9 @@ func (s *LegacyServer) DeviceAuthorization(ctx context.Context, r *ClientRequest
 	ctx, span := tracer.Start(ctx, "LegacyServer.DeviceAuthorization")
 	defer span.End()
 
+	if !ValidateGrantType(r.Client, oidc.GrantTypeDeviceCode) {
+		return nil, oidc.ErrUnauthorizedClient().WithDescription("client missing grant type " + string(oidc.GrantTypeDeviceCode))
+	}
 	response, err := createDeviceAuthorization(ctx, r.Data, r.Client.GetID(), s.provider)
 	if err != nil {
 		return nil, AsStatusError(err, http.StatusInternalServerError)
